@@ -29,6 +29,34 @@ PROPS = {
     ),
 }
 
+MACHINE_TB = [KERNEL, TIE,
+              "hand-written byte-step model of de.rs/read.rs (Model.Machine, Model.Num) tied to the crate by the correspondence run on all three sources",
+              "io::Bytes delivers the reader's bytes in order (chunking-independent); memchr/SWAR scanning abstracted as a naive scan (C05 proves the SWAR scanner equal to it)"]
+
+PROPS["C10"] = dict(
+    lean_targets=["SJ.Props.C10", "SJ.Audit.C10"],
+    configs=dict(quick=["d", "ap"], thorough=["d", "ap", "fr", "po"]),
+    gen_keys=["error.", "de."],
+    rule="every prefix (length 0..n) of every accepted text among: a fixed corpus of number/escape/container shapes, "
+         "grammar-directed random documents, every accepted token sequence of length <= 3 (thorough 4, sharded) over the "
+         "41-token structural alphabet; targets Value and IgnoredAny; sources str, slice, reader. One case = one "
+         "(document, target, source) with all its prefixes; non-trivial = document longer than one byte; distinct = distinct lines.",
+    trusted_base=MACHINE_TB,
+    assumptions=["typed targets (128-bit integers, quoted numeric/bool keys, raw values) are covered by correspondence only until the typed machine exists",
+                 "std io::Bytes semantics"],
+    partial=["c10_prefix_value_partial: the Value-target theorem carries the exception c = NumberOutOfRange (prefix = complete out-of-range number literal) — open known finding C10-out-of-range-number-prefix",
+             "typed targets and stream iteration: not yet modelled"],
+    technique="Lean 4 theorems over a byte-step machine model (fold decomposition + exhaustive analysis of the end-of-input table "
+              "against the classify arms regenerated from error.rs) + differential prefix sweep against the crate",
+    level_text="Machine-checked: for the Value and IgnoredAny targets, in every feature configuration and for every input source, "
+               "every prefix of an accepted text is accepted or fails at the end of the prefix with an Eof-classified error "
+               "(c10_prefix_ignored; c10_prefix_value_partial with the single inherent NumberOutOfRange exception made explicit). "
+               "classify and the error codes are regenerated from src/error.rs each run; the machine is compared with the crate on "
+               "every prefix of generated and exhaustive short documents, and the property's own predicate is evaluated on the crate's outputs.",
+    level_note="Trusted: Lean kernel + propext/Classical.choice/Quot.sound; extract.py; harness/driver; the hand-written machine model "
+               "(validated by correspondence, 0 disagreements). Typed targets, 128-bit, map keys, raw values and streams are not yet inside the model.",
+)
+
 # properties not claimed yet (kept current as checks are added)
 NOT_APPLICABLE = [
     dict(property_id=f"C{i:02d}", reason="check under construction in this build phase; not yet claimed (see DESIGN.md §11 build order)")
